@@ -9,7 +9,7 @@
   * `c09_size_lt`       the reported size is `< 2^64` — it fits `u64` without wrapping.
   * `c09_profile`       the result is the same in debug and release builds.
   * `c09_no_ub`         no overflow panic / wrap is reachable.
-  * `c09_err_iff`       Err ⇔ some prefix is a viable prefix of a chunk line while the next byte
+  * `c09_err_iff`       Err ⇔ some prefix is a viable *proper* prefix of a chunk line while the next byte
                         makes it non-viable (17th digit, no digit, non-hex before the extension,
                         digit after whitespace, CR not followed by LF, bare LF outside the ext).
   * `c09_partial_iff`   Partial ⇔ the whole buffer is a viable proper prefix.
@@ -36,9 +36,16 @@ theorem c09_profile (buf : List Byte) : parseChunkSize true buf = parseChunkSize
 theorem c09_no_ub (dbg : Bool) (buf : List Byte) (u : UB) : parseChunkSize dbg buf ≠ .ub u :=
   chunk_no_ub dbg buf u
 
+/-- `p` must be a *proper* viable prefix (`tail ≠ []`, the same shape as in `c09_partial_iff`):
+with plain `ChunkViable p` the right-hand side also holds for an accepted buffer with trailing
+bytes, e.g. `"0\r\nX"` with `p = "0\r\n"`, `b = 'X'`
+(`chunk_err_iff_unrestricted_false` in `Hx/Lemmas/Chunk.lean`). -/
 theorem c09_err_iff (dbg : Bool) (buf : List Byte) :
     (∃ e, parseChunkSize dbg buf = .err e) ↔
-      ∃ p b t, buf = p ++ b :: t ∧ ChunkViable p ∧ ¬ ChunkViable (p ++ [b]) :=
+      ∃ p b t, buf = p ++ b :: t ∧
+        (∃ digits ws ext tail, IsChunkLine digits ws ext ∧ tail ≠ [] ∧
+          p ++ tail = digits ++ ws ++ ext ++ [CR, LF]) ∧
+        ¬ ChunkViable (p ++ [b]) :=
   chunk_err_iff dbg buf
 
 theorem c09_err_kind (dbg : Bool) (buf : List Byte) (e : Error)
